@@ -12,60 +12,68 @@ CONSTANTS Cfgs, NMazes, MaxWorkers, MaxCalls,
           SerialInits       \* the serial path calls the initializer before mapping (FALSE: only when the global is unset)
 Unset == "unset"
 NoCall == [cfg |-> "none", mode |-> "none", W |-> 0]
+\* @type: (Str) => <<Str, Int>>;
 St(x) == <<x, 0>>
 VARIABLES pglobal,     \* parent's _GLOBAL_WORKER_CONFIG
           call,        \* the generate call in progress: [cfg, mode, W] or NoCall
           wglobal,     \* worker -> its copy of the global
           wstate,      \* worker -> St("new") | St("idle") | <<"busy", i>> | St("gone")
-          queue,       \* task indices not yet taken (imap hands them out in order)
+          nextIdx,     \* the next task index imap will hand out (tasks are handed out in index order); > NMazes: none left
           results,     \* index -> the config the item was built from (Unset = not yet delivered)
           ncalls, out  \* finished calls: sequence of <<cfg, results>>
-dvars == <<pglobal, call, wglobal, wstate, queue, results, ncalls, out>>
+dvars == <<pglobal, call, wglobal, wstate, nextIdx, results, ncalls, out>>
 Workers == 1..MaxWorkers
 Idx == 1..NMazes
 Init == /\ pglobal = Unset /\ call = NoCall /\ wglobal = [w \in Workers |-> Unset]
-        /\ wstate = [w \in Workers |-> St("gone")] /\ queue = <<>> /\ results = <<>> /\ ncalls = 0 /\ out = <<>>
+        /\ wstate = [w \in Workers |-> St("gone")] /\ nextIdx = NMazes + 1 /\ results = [i \in Idx |-> Unset] /\ ncalls = 0 /\ out = <<>>
 StartSerial(c) ==
   /\ call = NoCall /\ ncalls < MaxCalls
   /\ call' = [cfg |-> c, mode |-> "serial", W |-> 0]
   /\ pglobal' = (IF SerialInits \/ pglobal = Unset THEN c ELSE pglobal)   \* broken variant: lazy init only
-  /\ queue' = [i \in Idx |-> i] /\ results' = [i \in Idx |-> Unset]
+  /\ nextIdx' = 1 /\ results' = [i \in Idx |-> Unset]
   /\ ncalls' = ncalls + 1 /\ UNCHANGED <<wglobal, wstate, out>>
 SerialItem ==
-  /\ call # NoCall /\ call.mode = "serial" /\ queue # <<>>
-  /\ results' = [results EXCEPT ![Head(queue)] = pglobal]       \* the helper reads the global
-  /\ queue' = Tail(queue) /\ UNCHANGED <<pglobal, call, wglobal, wstate, ncalls, out>>
+  /\ call # NoCall /\ call.mode = "serial" /\ nextIdx <= NMazes
+  /\ results' = [results EXCEPT ![nextIdx] = pglobal]           \* the helper reads the global
+  /\ nextIdx' = nextIdx + 1 /\ UNCHANGED <<pglobal, call, wglobal, wstate, ncalls, out>>
 StartParallel(c, W) ==
   /\ call = NoCall /\ ncalls < MaxCalls /\ W \in Workers
   /\ call' = [cfg |-> c, mode |-> "pool", W |-> W]
   /\ wglobal' = [w \in Workers |-> IF w <= W THEN pglobal ELSE Unset]   \* fork copies the parent's memory
   /\ wstate' = [w \in Workers |-> IF w <= W THEN St("new") ELSE St("gone")]
-  /\ queue' = [i \in Idx |-> i] /\ results' = [i \in Idx |-> Unset]
+  /\ nextIdx' = 1 /\ results' = [i \in Idx |-> Unset]
   /\ ncalls' = ncalls + 1 /\ UNCHANGED <<pglobal, out>>
 WorkerInit(w) ==
   /\ call # NoCall /\ call.mode = "pool" /\ wstate[w] = St("new")
   /\ wglobal' = [wglobal EXCEPT ![w] = IF InitSetsGlobal THEN call.cfg ELSE @]
-  /\ wstate' = [wstate EXCEPT ![w] = St("idle")] /\ UNCHANGED <<pglobal, call, queue, results, ncalls, out>>
+  /\ wstate' = [wstate EXCEPT ![w] = St("idle")] /\ UNCHANGED <<pglobal, call, nextIdx, results, ncalls, out>>
 Take(w) ==
-  /\ call # NoCall /\ call.mode = "pool" /\ wstate[w] = St("idle") /\ queue # <<>>
-  /\ wstate' = [wstate EXCEPT ![w] = <<"busy", Head(queue)>>] /\ queue' = Tail(queue)
+  /\ call # NoCall /\ call.mode = "pool" /\ wstate[w] = St("idle") /\ nextIdx <= NMazes
+  /\ wstate' = [wstate EXCEPT ![w] = <<"busy", nextIdx>>] /\ nextIdx' = nextIdx + 1
   /\ UNCHANGED <<pglobal, call, wglobal, results, ncalls, out>>
 FinishTask(w) ==
   /\ call # NoCall /\ call.mode = "pool" /\ wstate[w][1] = "busy"
   /\ results' = [results EXCEPT ![wstate[w][2]] = wglobal[w]]
-  /\ wstate' = [wstate EXCEPT ![w] = St("idle")] /\ UNCHANGED <<pglobal, call, wglobal, queue, ncalls, out>>
+  /\ wstate' = [wstate EXCEPT ![w] = St("idle")] /\ UNCHANGED <<pglobal, call, wglobal, nextIdx, ncalls, out>>
 Collect ==
-  /\ call # NoCall /\ queue = <<>> /\ \A i \in Idx : results[i] # Unset
+  /\ call # NoCall /\ nextIdx > NMazes /\ \A i \in Idx : results[i] # Unset
   /\ (call.mode = "pool" => \A w \in Workers : wstate[w][1] # "busy")
   /\ out' = Append(out, <<call.cfg, results>>) /\ call' = NoCall
-  /\ wstate' = [w \in Workers |-> St("gone")] /\ UNCHANGED <<pglobal, wglobal, queue, results, ncalls>>
+  /\ wstate' = [w \in Workers |-> St("gone")] /\ UNCHANGED <<pglobal, wglobal, nextIdx, results, ncalls>>
 StartAny == \E c \in Cfgs : StartSerial(c) \/ \E W \in Workers : StartParallel(c, W)
 WorkerAny == \E w \in Workers : WorkerInit(w) \/ Take(w) \/ FinishTask(w)
 Next == StartAny \/ SerialItem \/ WorkerAny \/ Collect
 Spec == Init /\ [][Next]_dvars
 \* C03: every delivered item was built from the configuration of THIS call; exactly n_mazes slots
-ItemFromThisCfg == \A k \in 1..Len(out) : \A i \in Idx : out[k][2][i] = out[k][1]
-LenExact == \A k \in 1..Len(out) : DOMAIN out[k][2] = Idx
-NoLostTask == (call # NoCall /\ queue = <<>> /\ (\A w \in Workers : wstate[w][1] # "busy")) => \A i \in Idx : results[i] # Unset
+ItemFromThisCfg == \A k \in DOMAIN out : \A i \in Idx : out[k][2][i] = out[k][1]
+LenExact == \A k \in DOMAIN out : DOMAIN out[k][2] = Idx
+NoLostTask == (call # NoCall /\ nextIdx > NMazes /\ (\A w \in Workers : wstate[w][1] # "busy")) => \A i \in Idx : results[i] # Unset
+\* strengthening that makes ItemFromThisCfg inductive (discharged by Apalache for any number of generate calls:
+\* spec/apalache/MC_DatasetGen.tla)
+Strengthening ==
+  /\ (call # NoCall /\ call.mode = "serial" => pglobal = call.cfg)
+  /\ (call # NoCall /\ call.mode = "pool" => \A w \in Workers : wstate[w][1] \in {"idle", "busy"} => wglobal[w] = call.cfg)
+  /\ (call # NoCall => \A i \in Idx : results[i] \in {Unset, call.cfg})
+  /\ (call # NoCall => call.cfg \in Cfgs)
 CfgsAB == {"a", "b"}
 ==============================================================================
